@@ -1002,10 +1002,51 @@ Definition C09_no_duplicate_state (c : ccase) : option string :=
     end in
   snd (fold_left (fun acc r => fold_left step (r_events r) acc) (c_rounds c) (start, None)).
 
+(* a ControllerRevision is deleted only when it records no child that is still wanted: every rolling child the
+   deleted revision recorded (as cached) and the latest answer still desires is recorded by a surviving revision *)
+Definition C09_deleted_revision_was_empty (c : ccfg) (r : round) : option string :=
+  if negb (any_rolling c) then None else
+  (* judged when every revision write of the sync was accepted (deletes go first: a later write that fails
+     leaves the moved child recorded by nobody, which the statement allows) *)
+  if negb (forallb accepted (rev_events (r_events r))) then None else
+  match latest_sent c r with
+  | None => None
+  | Some sent =>
+      let after := revs_after c r sent in
+      let before := revs_before c r sent in
+      match find (is_latest_rev c sent) after with
+      | None => None
+      | Some lat =>
+          match answer_for c sent lat (r_events r) with
+          | None => None
+          | Some lresp =>
+              let pns := get_ns sent in
+              let wanted := flat_map (fun ch => match ch with
+                               | Some o => let g := group_of (get_api_version o) in
+                                           if is_rolling c g (get_kind o) then [(g, get_kind o, relative_name pns o)] else []
+                               | None => [] end) (hr_children lresp) in
+              let claimed := flat_map (names_of c) after in
+              first_some (fun e =>
+                match is_api e with
+                | Some q =>
+                    if String.eqb (q_res q) rev_res && verb_eqb (q_verb q) VDelete && accepted e then
+                      match find (fun x => String.eqb (rev_name x) (q_name q)) before with
+                      | Some x => if existsb (fun k => ck_mem k wanted && negb (ck_mem k claimed)) (names_of c x)
+                                  then Some "revision-deleted-while-it-alone-records-a-wanted-child" else None
+                      | None => None
+                      end
+                    else None
+                | None => None
+                end) (r_events r)
+          end
+      end
+  end.
+
 Definition C09_check (c : ccase) : verdict :=
   match orelse (C08_final c) (orelse (C09_final_exclusive c) (C09_no_duplicate_state c)) with
   | Some w => PROPFAIL ("after-interruption-" ++ w)%string
-  | None => check_with (fun c r => orelse (C09_round c r) (C09_child_follows_its_revision c r)) proj_all true c
+  | None => check_with (fun c r => orelse (C09_round c r) (orelse (C09_child_follows_its_revision c r)
+                                                            (C09_deleted_revision_was_empty c r))) proj_all true c
   end.
 
 (* C17: the shared caches are read-only; the hook sees what the cache holds *)
